@@ -3,6 +3,7 @@ package sizes
 import (
 	"encoding/json"
 	"fmt"
+	"strings"
 	"sync"
 
 	"github.com/github/git-sizer/git"
@@ -132,7 +133,18 @@ func (p *Path) TreePrefix() string {
 				return p.parent.TreePrefix() + p.relativePath + "/"
 			}
 		case p.relativePath != "":
-			return p.relativePath + "/"
+			// This tree was named directly by a reference or a
+			// ROOT argument. A path within a tree-ish is written
+			// `<tree-ish>:<path>`, unless the name already has the
+			// form `<rev>:<path>`.
+			switch {
+			case strings.HasSuffix(p.relativePath, ":"):
+				return p.relativePath
+			case strings.Contains(p.relativePath, ":"):
+				return p.relativePath + "/"
+			default:
+				return p.relativePath + ":"
+			}
 		default:
 			return "???"
 		}
